@@ -224,8 +224,10 @@ def gen_e2e_case(rng, n):
             plants[:] = [p for p in plants if not p['where'].startswith('own/')]
             u = uri('own/invalid', True)
             cfg[OWN[cls][0]] = 'gopher' + u[u.index('://'):]
-    return {'kind': 'e2e', 'cls': cls, 'stage': stage, 'as_cfg': rng.random() < 0.4, 'config': enc(cfg, (), []), 'plants': plants,
+    case = {'kind': 'e2e', 'cls': cls, 'stage': stage, 'as_cfg': rng.random() < 0.4, 'config': enc(cfg, (), []), 'plants': plants,
             'meta': cls in ('VideoIn', 'VideoOut')}
+    if cls == 'VideoIn' and rng.random() < 0.4: case['open_fail'] = rng.randint(0, 3)
+    return case
 
 
 class _Env:
@@ -268,7 +270,10 @@ class _Env:
             framerate = 30.0
 
         class FakeVideoGear:
-            def __init__(self, source=None, **kw): self.stream = FakeStream(); self.stopped = False
+            fail = set()          # raw sources that refuse to open (camera off / wrong password): CamGear's error text carries no URI
+            def __init__(self, source=None, **kw):
+                if source in FakeVideoGear.fail: raise RuntimeError('[CamGear:ERROR] :: Source is invalid, CamGear failed to initialize stream on this source!')
+                self.stream = FakeStream(); self.stopped = False
             def start(self): return self
             def stop(self): self.stopped = True
             def read(self):
@@ -360,6 +365,9 @@ def run_e2e(env, case):
                             for o in f.config.outputs:
                                 if o.output.startswith('rtsp://'): env.video_out.VideoWriter(o.output, fps=15.0).stop()
                         elif case.get('meta'):
+                            if case.get('open_fail') is not None:     # one of the cameras refuses to open: whatever setup() logs on that path is checked too
+                                srcs = [x.source for x in f.config.sources]
+                                env.FakeVideoGear.fail = {srcs[case['open_fail'] % len(srcs)]} if srcs else set()
                             f.setup(f.config)
                             try:
                                 get = f.process({})
@@ -375,6 +383,7 @@ def run_e2e(env, case):
                         try: f.fini()
                         except Exception: pass
     finally:
+        env.FakeVideoGear.fail = set()
         if orig_norm is not None: cls.normalize_config = orig_norm
         if f is not None:
             try: f.stop_logging()
